@@ -66,6 +66,14 @@ def eval_case(case):
                 if df:
                     out.append(O.V("a forward run after a backward run on the same project differs from the forward run before it",
                                    "C09/after-backward", df[:3]))
+                # ... and the backward run itself equals the backward run of a freshly built project
+                if op.get("init_state", True) and op.get("init_log", True):
+                    bY, trY = sim.run_ops(case, want_snaps=False, ops=[bk])
+                    if trY[0]["exc"] is None:
+                        df = O.dump_diff(trX[1]["dump"], trY[0]["dump"])
+                        if df:
+                            out.append(O.V("a backward run on an already simulated project differs from the backward run of a fresh one",
+                                           "C09/backward-after-forward", df[:3]))
     # (iv) hidden state outside the object: default-argument call, log edit, default-argument call on a new object
     if case.get("defaults_probe"):
         ops = [{"op": "simulate_default", "max_time": 40}]
